@@ -3,6 +3,7 @@
 //! driver re-executes on the model.
 mod gen;
 mod ops;
+mod scale;
 mod types;
 mod zst;
 
@@ -219,6 +220,10 @@ fn main() {
     if a.cmd == "probe" {
         if std::env::var("PQH_VERBOSE").is_err() { std::panic::set_hook(Box::new(|_| {})); }
         probe::<HRandom>(&a);
+        return;
+    }
+    if a.cmd == "scale" {
+        scale::scale(a.seed, a.tier == "thorough");
         return;
     }
     if a.cmd != "gen" && a.cmd != "replay" {
